@@ -146,6 +146,9 @@ func (st Style) path(p []string) string {
 		if len(p) == 2 {
 			return p[0] + "." + p[1]
 		}
+		if len(p) == 3 {
+			return p[0] + "." + p[1] + "." + p[2]
+		}
 	}
 	if simple && len(p) == 2 {
 		// QuoteAll: qualifier and name quoted separately, the output key stays the last segment
